@@ -2006,6 +2006,9 @@ class AndNegMacro(Macro):
                 expected_conj.append(Not(conj.arg))
                 break
             conj = conj.arg
+        else:
+            # the walk ended at the last conjunct (or args[0] is not a conjunction at all)
+            expected_conj.append(Not(conj))
         if neg_disjs != tuple(expected_conj):
             raise VeriTException("and_neg", "Unexpected goal")
         return Thm(Or(*args))
